@@ -22,22 +22,32 @@ def apply(ctx, W):
 
     fn, u = fn_into_verus(ctx, vf, "build_type", ret="r", tags=("C02", "C04", "C06", "C14", "C19", "C12"), unit="semantic::type_definition::vftable::build_type",
         ensures=[
-            ("match vft_path(*resolvee_path) { None => r is None, Some(vp) => r is Some && r->0.path == vp }", ("C14", "C19", "C06"), "vftable-item-path"),
-            ("r is Some ==> vftable_item_ok(type_registry, *resolvee_path, visibility, functions@, r->0)", ("C02", "C04", "C16", "C17"), "vftable-item"),
+            ("r is Ok ==> match vft_path(*resolvee_path) { None => r->Ok_0 is None, Some(vp) => r->Ok_0 is Some && r->Ok_0->0.path == vp }", ("C14", "C19", "C06"), "vftable-item-path"),
+            ("r is Ok && r->Ok_0 is Some ==> vftable_item_ok(type_registry, *resolvee_path, visibility, functions@, r->Ok_0->0)", ("C02", "C04", "C16", "C17"), "vftable-item"),
+            ("r is Ok && r->Ok_0 is Some ==> functions@.len() * type_registry.pointer_size <= usize::MAX", ("C02", "C12"), "vftable-size-fits"),
+            ("r is Err ==> functions@.len() * type_registry.pointer_size > usize::MAX", ("C03", "C12"), "vftable-error-only-if-too-large"),
         ])
-    mac = [m for m in vf.in_fn(fn, ("macro",)) if m["path"] == "format"]
+    mac = [m for m in vf.in_fn(fn, ("macro",)) if m["path"] == "format" and "Vftable" in vf.text(m["span"])]
     if len(mac) != 1:
-        raise rules.WeaveError("build_type: expected one format! call")
+        raise rules.WeaveError("build_type: expected one format! call for the name of the generated item")
     rules.fmt_value(vf, mac[0], "v_format1_str")
     coll = vf.method_calls(fn, "collect")
     rules.map_collect_result(vf, fn, coll[0], plain_vec=True, slice_recv=True)
     closure_annot(ctx, vf, u, closure_of_call(vf, fn, "map", 1), params=["f: &Function"], ret="q: Region", ensures=["slot_region_ok(*resolvee_path, *f, q)"], tags=("C04",))
-    sm = vf.method_calls(fn, "sum")
-    if len(sm) != 1:
-        raise rules.WeaveError("build_type: expected one .sum() call")
-    rules.map_sum(vf, fn, sm[0], "Seq::new(regions@.len(), |i: int| type_registry.pointer_size)")
-    closure_annot(ctx, vf, u, closure_of_call(vf, fn, "map", 2), params=["r: &Region"], ret="n: usize",
-                  requires=["r.type_ref is Function"], ensures=["n == type_registry.pointer_size"], tags=("C02",))
-    ghost(ctx, vf, u, after(vf, vf.top_let(fn, "regions")), """proof {
-        lemma_seq_sum_const(Seq::new(regions@.len(), |i: int| type_registry.pointer_size), type_registry.pointer_size);
-    }""")
+    # the size of the generated struct: a checked sum over the slot regions (F13: it used to be an unchecked `.sum()`)
+    lp = rules.loop_by_header(vf, fn, "regions")
+    rules.for_to_index_loop(ctx, vf, u, lp, seq="regions", ivar="i_g")
+    rules.index_loop_spec(ctx, vf, u, lp, tags=("C02", "C12"), invariants=[
+        ("forall|k: int| 0 <= k < regions@.len() ==> (#[trigger] regions@[k]).type_ref is Function", ("C02",)),
+        ("size == i_g * type_registry.pointer_size", ("C02", "C12")),
+        ("regions@.len() == functions@.len()", ("C02",)),
+    ])
+    ghost(ctx, vf, u, rules.body_start(lp), """proof {
+            let p = type_registry.pointer_size as int; let i = i_g as int; let n = regions@.len() as int;
+            assert((i - 1) * p + p == i * p) by (nonlinear_arith);
+            assert(i * p <= n * p) by (nonlinear_arith) requires i <= n, p >= 0;
+        }""")
+    ghost(ctx, vf, u, rules.body_end(lp), """proof {
+            assert((i_g - 1) * type_registry.pointer_size + type_registry.pointer_size == i_g * type_registry.pointer_size) by (nonlinear_arith);
+            assert(i_g <= regions@.len() ==> i_g * type_registry.pointer_size <= regions@.len() * type_registry.pointer_size) by (nonlinear_arith);
+        }""")
